@@ -15,7 +15,7 @@ FAULT_KINDS = {
 
 FAULT_KINDS_QUICK = FAULT_KINDS - {'read', 'listdir', 'os.open'}
 FAULT_QUICK_VARIANTS = (
-    'add_object:new@', 'add_streamed:multichunk@', 'seek_read:reloosen@', 'pack_all_loose:yes:clpp=1@',
+    'add_object:new@', 'add_object:readd-damaged-loose-copy@', 'add_streamed:multichunk@', 'seek_read:reloosen@', 'pack_all_loose:yes:clpp=1@',
     'pack_all_loose:no:clpp=1:multipack@', 'clean_storage@', 'add_objects_to_pack:z=1:nh1@',
     'add_objects_to_pack:z=0:nh1:multipack@', 'import:diff-hash:tmb-small@', 'delete:both-forms@', 'repack:keep:holes@', 'repack:yes@',
     'add_streamed_object_to_pack:big@', 'pack_all_loose:no-fsync@',
@@ -130,7 +130,7 @@ def run_fault_variant(case):  # noqa: C901
             return common.case_result(name, False, inconclusive=f'shim blind spot in {name}: {dry["blind"][:3]}')
         events = dry['events']
         kinds = FAULT_KINDS if tier == 'thorough' else FAULT_KINDS_QUICK
-        if tier != 'thorough' and name.startswith('pack_all_loose'):
+        if tier != 'thorough' and name.startswith(('pack_all_loose', 'add_object:readd-damaged')):
             kinds = kinds | {'read'}  # reads of the loose files being packed (multi-chunk objects: up to three reads each)
         elig = [e for e in events if e['kind'] in kinds]
         counters['variants'] += 1
